@@ -1,9 +1,14 @@
 import BreezyVerif.Model.C10
 import BreezyVerif.Lemmas.C10
 import BreezyVerif.Lemmas.C10Loop
+import BreezyVerif.Lemmas.C10Filter
+import BreezyVerif.Lemmas.C10Nodup
 /-!
 C10 — theorems.  All trees (association lists of any size, no well-formedness
-needed unless stated), all filters.
+needed unless stated), all filters.  `iterChanges` is the comparison of the
+unchanged code; `iterChangesG fx` is the same with the selected variant of the
+`_handle_precise_ids` loop (`fx = false`: unchanged, `iterChangesG false =
+iterChanges`; `fx = true`: with the `examined_file_ids` fix).
 -/
 namespace BreezyVerif.C10
 
@@ -225,8 +230,10 @@ theorem filter_complete (impl : Impl) (src tgt : Tree) (filt : List Path) (reqv 
 
 /-- **Parent closure of `_handle_precise_ids`**: for every reported record that
 places its id under a parent `p` in the target, `p` is reported too or `p` is
-not a change at all (same entry in source and target), so the applied result
-never has a dangling or stale parent. -/
+not a change at all (it has the same entry in source and target — or, in trees
+that are not well formed, no entry in either).  `filter_ancestor_closed` below
+extends this to all ancestors; `filter_wf_partial` draws the conclusion for
+well-formed trees. -/
 theorem filter_parent_closed (impl : Impl) (src tgt : Tree) (filt : List Path) (reqv : Bool)
     (cs : List Change) (h : iterChanges impl src tgt (some filt) false reqv = .ok cs) :
     ∀ c ∈ cs, ∀ p, c.tgtParent = some p →
@@ -256,11 +263,11 @@ example : wf exSrc = true ∧ wf exTgt = true ∧
 
 example : "f" ∈ selectIds exSrc exTgt [["d", "f"]] := by decide +kernel
 
-/-- **Witness (defect in `_handle_precise_ids`)**: the displaced source entries
-are added to the work set *after* already-emitted ids have been removed from
-it, so an id that was already reported (`o`, selected by the filter path `q`)
-and that occupies the target path of a needed parent (`p` at `d`) is reported a
-second time. -/
+/-- **Witness (defect in the `_handle_precise_ids` loop without the `examined_file_ids` fix; fixed
+in /repo, kept because the check still selects this variant when it meets it)**: the displaced
+source entries are added to the work set *after* already-emitted ids have been removed from it, so
+an id that was already reported (`o`, selected by the filter path `q`) and that occupies the target
+path of a needed parent (`p` at `d`) is reported a second time.  With the fix: `no_duplicates`. -/
 theorem precise_duplicate_witness :
     (iterChanges .generic exSrc exTgt (some [["d", "f"], ["q"]]) false false).toOption.map
       (fun cs => cs.map (·.id)) = some ["o", "f", "p", "o"] := by decide +kernel
@@ -304,6 +311,361 @@ the flag). -/
 theorem include_unchanged_widens_witness :
     ((iterChanges .generic cSrc cTgt (some [["d", "b"]]) false false).toOption.map fun cs => cs.map (·.id)) = some [] ∧
     ((iterChanges .generic cSrc cTgt (some [["d", "b"]]) true false).toOption.map
+        fun cs => (cs.filter (·.isChanged)).map (·.id)) = some ["a"] := by decide +kernel
+
+/-! ### optimised = generic, `require_versioned`, `want_unversioned` -/
+
+/-- **Optimised equals generic (revision trees)**: without `include_unchanged` the CHK
+flavour and the generic flavour give literally the same record list, for every pair of trees, every
+filter (`none`, `[]`, any paths) and both settings of `require_versioned`.  (With
+`include_unchanged` they differ: `chk_unchanged_path_witness`.) -/
+theorem chk_eq_generic (fx : Bool) (src tgt : Tree) (filt : Option (List Path)) (reqv : Bool) :
+    iterChangesG fx .chk src tgt filt false reqv = iterChangesG fx .generic src tgt filt false reqv := by
+  unfold iterChangesG
+  cases filt with
+  | none => simp
+  | some f =>
+    cases f with
+    | nil => rfl
+    | cons p f =>
+      simp only
+      split
+      · rfl
+      · simp only [Bool.false_eq_true, if_false, List.append_nil]
+
+/-- **`require_versioned`**: with the flag, a (non-empty) filter is rejected exactly when one of its
+paths is the path of no id in either tree, and the error lists exactly those paths; otherwise the flag
+changes nothing.  Without the flag the error never occurs. -/
+theorem require_versioned_spec (fx : Bool) (impl : Impl) (src tgt : Tree) (p : Path) (f : List Path) (incl : Bool) :
+    (notVersioned src tgt (p :: f) ≠ [] →
+      iterChangesG fx impl src tgt (some (p :: f)) incl true = .error (.pathsNotVersioned (notVersioned src tgt (p :: f)))) ∧
+    (notVersioned src tgt (p :: f) = [] →
+      iterChangesG fx impl src tgt (some (p :: f)) incl true = iterChangesG fx impl src tgt (some (p :: f)) incl false) ∧
+    (∀ ps, iterChangesG fx impl src tgt (some (p :: f)) incl false ≠ .error (.pathsNotVersioned ps)) ∧
+    (∀ q, q ∈ notVersioned src tgt (p :: f) ↔
+      q ∈ p :: f ∧ (∀ i, pathOf tgt i ≠ some q) ∧ (∀ i, pathOf src i ≠ some q)) := by
+  refine ⟨?_, ?_, ?_, ?_⟩
+  · intro h
+    unfold iterChangesG
+    have : (notVersioned src tgt (p :: f)).isEmpty = false := by
+      cases hn : notVersioned src tgt (p :: f) with
+      | nil => exact absurd hn h
+      | cons _ _ => rfl
+    simp [this]
+  · intro h
+    unfold iterChangesG
+    simp [h]
+  · intro ps
+    unfold iterChangesG
+    simp only [Bool.false_and, Bool.false_eq_true, if_false]
+    cases impl <;> simp only <;> split <;> simp
+  · intro q
+    rw [mem_notVersioned, idAt_none_iff, idAt_none_iff]
+
+example : notVersioned exSrc exTgt [["d", "f"], ["nope"]] = [["nope"]] := by decide +kernel
+
+/-- the `want_unversioned` records are exactly the unversioned paths at or below a filter path -/
+theorem mem_unversionedOf {extras : List Path} {f : List Path} {p : Path} :
+    p ∈ unversionedOf extras (some f) ↔ p ∈ extras ∧ ∃ q ∈ f, q <+: p := by
+  unfold unversionedOf insideAny
+  simp [List.mem_filter, List.any_eq_true]
+
+/-! ### the selection (`find_ids_across_trees`) -/
+
+/-- **Every id at or below a filter path — in either tree — is selected**, and the selection is
+closed under children in either tree (the bounded iterate of `selectIds` reaches its fixpoint).
+With `filter_complete`: every change whose source or target path lies under a filter path is
+reported. -/
+theorem select_complete (src tgt : Tree) (filt : List Path) :
+    (wf tgt = true → ∀ p ∈ filt, ∀ i path, pathOf tgt i = some path → p <+: path → i ∈ selectIds src tgt filt) ∧
+    (wf src = true → ∀ p ∈ filt, ∀ i path, pathOf src i = some path → p <+: path → i ∈ selectIds src tgt filt) ∧
+    (∀ p ∈ selectIds src tgt filt, ∀ j, (j ∈ childrenOf src p ∨ j ∈ childrenOf tgt p) → j ∈ selectIds src tgt filt) :=
+  ⟨fun hw _ hp _ _ hi hpre => selectIds_complete_tgt hw hp hi hpre,
+   fun hw _ hp _ _ hi hpre => selectIds_complete_src hw hp hi hpre,
+   fun _ hp _ hj => selectIds_children_closed hp hj⟩
+
+example : wf exTgt = true ∧ pathOf exTgt "f" = some ["d", "f"] ∧ ["d"] <+: ["d", "f"] := by
+  refine ⟨by decide +kernel, by decide +kernel, ?_⟩
+  exact ⟨["f"], rfl⟩
+
+/-! ### termination of the closure loop -/
+
+/-- **Witness (the anchored code does not terminate)**: on these two pairs of well-formed trees
+the `_handle_precise_ids` loop never finishes, *whatever the fuel*: (A) the entry `o` moved to
+below the unchanged entry `x` that now sits at `o`'s old path — `x` is needed, the source entry at
+its target path is `o`, `o` is emitted (again) and asks for its parent `x` (again): the real
+generator yields the record of `o` for ever; (B) the same with an unchanged `o`: nothing is
+emitted any more, the loop just spins.  `iterChanges` answers `Err.fuel` for both flavours; the
+loop with the fix terminates on both. -/
+theorem precise_never_terminates_witness :
+    (wf loopASrc = true ∧ wf loopATgt = true ∧
+      (∀ n, preciseLoop loopASrc loopATgt n (startState loopASrc loopATgt [["b", "x", "y"]]) = none) ∧
+      isFuel (iterChanges .generic loopASrc loopATgt (some [["b", "x", "y"]]) false false) = true ∧
+      isFuel (iterChanges .chk loopASrc loopATgt (some [["b", "x", "y"]]) false false) = true ∧
+      (iterChangesG true .generic loopASrc loopATgt (some [["b", "x", "y"]]) false false).toOption.map (fun cs => cs.map (·.id))
+        = some ["o", "a", "b"]) ∧
+    (wf loopBSrc = true ∧ wf loopBTgt = true ∧
+      (∀ n, preciseLoop loopBSrc loopBTgt n (startState loopBSrc loopBTgt [["g", "n", "n", "f"]]) = none) ∧
+      isFuel (iterChanges .generic loopBSrc loopBTgt (some [["g", "n", "n", "f"]]) false false) = true ∧
+      isFuel (iterChanges .chk loopBSrc loopBTgt (some [["g", "n", "n", "f"]]) false false) = true ∧
+      (iterChangesG true .generic loopBSrc loopBTgt (some [["g", "n", "n", "f"]]) false false).toOption.map (fun cs => cs.map (·.id))
+        = some ["f", "g", "h"]) :=
+  ⟨⟨by decide +kernel, by decide +kernel, loopA_diverges, by decide +kernel, by decide +kernel, by decide +kernel⟩,
+   ⟨by decide +kernel, by decide +kernel, loopB_diverges, by decide +kernel, by decide +kernel, by decide +kernel⟩⟩
+
+/-- **The loop with the proposed fix always terminates**: for every pair of trees (no
+well-formedness needed), every filter and all flags, the fixed `iter_changes` never runs out of
+fuel — each round examines at least one id of `ids src ∪ ids tgt ∪ parent fields of tgt` for the
+first time. -/
+theorem fixed_loop_terminates (impl : Impl) (src tgt : Tree) (filt : Option (List Path)) (incl reqv : Bool) :
+    isFuel (iterChangesG true impl src tgt filt incl reqv) = false := by
+  have key : ∀ (sel : List Id) (incl : Bool), ∃ out,
+      preciseLoopG true src tgt (gFuel true src tgt)
+        { precise := tgtParents (baseTgt src tgt sel incl),
+          changed := (baseTgt src tgt sel incl ++ baseRemoved src tgt sel).map (·.id), out := [] } [] = some out := by
+    intro sel incl
+    apply preciseLoopG_true_terminates
+    · exact tgtParents_reachable
+    · unfold unexamined gFuel
+      have := reachable_length src tgt
+      have h2 : ((reachable src tgt).filter fun u => !([] : List Id).contains u).length ≤ (reachable src tgt).length :=
+        List.length_filter_le _ _
+      simp only [if_true]
+      omega
+  unfold iterChangesG
+  cases filt with
+  | none => cases impl <;> rfl
+  | some f =>
+    cases f with
+    | nil => rfl
+    | cons p f =>
+      simp only
+      split
+      · rfl
+      · cases impl
+        · obtain ⟨out, ho⟩ := key (selectIds src tgt (p :: f)) incl
+          simp only [ho]; rfl
+        · obtain ⟨out, ho⟩ := key (selectIds src tgt (p :: f)) false
+          simp only [ho]; rfl
+
+/- Full statement (FALSE for the unchanged code, `precise_never_terminates_witness`):
+   theorem precise_terminates (hs : wf src = true) (hw : wf tgt = true) :
+       isFuel (iterChanges impl src tgt filt incl reqv) = false
+   What is missing: the loop forgets the unchanged ids it has examined and looks the
+   `source.path2id` occupants up after removing the emitted ids. -/
+/-- **The loop of the unchanged code terminates when no target path is occupied in the source by
+another id** (partial).  The loop is then a plain walk up the target's parent chains, one level
+per round, so `tgt.length + 2 ≤ preciseFuel` rounds are enough: the hypothesis `= .ok cs` of the
+filter theorems is satisfiable for trees of any size. -/
+theorem precise_terminates_partial (impl : Impl) (src tgt : Tree) (filt : Option (List Path)) (incl reqv : Bool)
+    (hw : wf tgt = true) (hocc : noPathOccupant src tgt = true) :
+    isFuel (iterChanges impl src tgt filt incl reqv) = false := by
+  have key : ∀ (sel : List Id) (incl : Bool), ∃ out,
+      preciseLoop src tgt (preciseFuel src tgt)
+        { precise := tgtParents (baseTgt src tgt sel incl),
+          changed := (baseTgt src tgt sel incl ++ baseRemoved src tgt sel).map (·.id), out := [] } = some out := by
+    intro sel incl
+    apply preciseLoop_terminates_of_shallow hw hocc (tgt.length + 1)
+    · intro j hj
+      obtain ⟨c, hc, hcp⟩ := mem_tgtParents_iff.mp hj
+      obtain ⟨h1, _, _, _⟩ := baseTgt_mem hc
+      rw [change_tgtPar h1] at hcp
+      unfold tgtPar at hcp
+      cases hg : get tgt c.id with
+      | none => simp [hg] at hcp
+      | some e =>
+        simp only [hg, Option.bind_some] at hcp
+        obtain ⟨pe, gpe, hpd⟩ := wf_parent hw hg hcp
+        obtain ⟨path, hpath⟩ := wf_hasPath hw gpe
+        exact ⟨pe, path, gpe, hpd, hpath, by have := pathOf_len hpath; omega⟩
+    · unfold preciseFuel; omega
+  unfold iterChanges
+  cases filt with
+  | none => cases impl <;> rfl
+  | some f =>
+    cases f with
+    | nil => rfl
+    | cons p f =>
+      simp only
+      split
+      · rfl
+      · cases impl
+        · obtain ⟨out, ho⟩ := key (selectIds src tgt (p :: f)) incl
+          simp only [ho]; rfl
+        · obtain ⟨out, ho⟩ := key (selectIds src tgt (p :: f)) false
+          simp only [ho]; rfl
+
+def tSrc : Tree := [("r", ⟨none, "", .dir⟩), ("a", ⟨some "r", "a", .dir⟩), ("b", ⟨some "a", "b", .dir⟩),
+  ("c", ⟨some "b", "c", .file "x" false⟩), ("e", ⟨some "r", "e", .file "y" true⟩)]
+/-- `a` renamed to `z`, `c` edited, `e` moved into `a/b` -/
+def tTgt : Tree := [("r", ⟨none, "", .dir⟩), ("a", ⟨some "r", "z", .dir⟩), ("b", ⟨some "a", "b", .dir⟩),
+  ("c", ⟨some "b", "c", .file "xy" false⟩), ("e", ⟨some "b", "e2", .file "y" true⟩)]
+
+/-- the hypotheses of `precise_terminates_partial` and `filter_wf_partial` hold on a non-trivial
+pair (a renamed directory, an edit and a move below it), and the closure really adds records
+(`a`, the renamed grandparent of `c`, is outside the filter) -/
+example : wf tSrc = true ∧ wf tTgt = true ∧ noPathOccupant tSrc tTgt = true ∧ noSlotOccupant tSrc tTgt = true ∧
+    sameRoot tSrc tTgt = true ∧
+    (iterChanges .generic tSrc tTgt (some [["z", "b", "c"]]) false false).toOption.map (fun cs => cs.map (·.id))
+      = some ["c", "a"] := by decide +kernel
+
+/-! ### what a filtered result contains (both loop variants) -/
+
+theorem iterChangesG_unfixed (impl : Impl) (src tgt : Tree) (filt : Option (List Path)) (incl reqv : Bool) :
+    iterChangesG false impl src tgt filt incl reqv = iterChanges impl src tgt filt incl reqv :=
+  iterChangesG_false impl src tgt filt incl reqv
+
+/-- `filter_subset` and `filter_complete` for both loop variants: every reported record is a changed
+true record of the unfiltered result, and every change of a selected id is reported -/
+theorem filter_subset_complete_g (fx : Bool) (impl : Impl) (src tgt : Tree) (filt : List Path) (reqv : Bool)
+    (cs : List Change) (h : iterChangesG fx impl src tgt (some filt) false reqv = .ok cs) :
+    (∀ c ∈ cs, c ∈ changesOf src tgt) ∧
+    (∀ i ∈ selectIds src tgt filt, ∀ c, change src tgt i = some c → c.isChanged = true → c ∈ cs) := by
+  cases filt with
+  | nil =>
+    have hnil : ∀ n, iterate (expandChildren src tgt) n [] = [] := by
+      intro n
+      induction n with
+      | zero => rfl
+      | succ n ih => simpa [iterate, expandChildren, unionNew] using ih
+    simp [iterChangesG] at h
+    subst h
+    simp [selectIds, unionNew, hnil]
+  | cons p f =>
+    obtain ⟨K, h1, _, _, _, _, h6⟩ := filteredG_closed fx impl src tgt p f reqv cs h
+    exact ⟨fun c hc => mem_changesOf (h1 c hc).2 (h1 c hc).1, h6⟩
+
+/-- **Ancestor closure of `_handle_precise_ids`** (both loop variants, every pair of trees, every
+filter): whenever a record is reported, *every* ancestor of its id in the target — not only the
+parent — is reported too or is not a change at all (same entry in both trees); and when a reported
+record says its id stopped being a directory (or is gone), every child the id has in the source is
+reported or is not a change.  So the path from a reported entry to the root is, entry by entry, the
+target's, and no unreported entry keeps a parent that is no directory any more. -/
+theorem filter_ancestor_closed (fx : Bool) (impl : Impl) (src tgt : Tree) (filt : List Path) (reqv : Bool)
+    (cs : List Change) (h : iterChangesG fx impl src tgt (some filt) false reqv = .ok cs) :
+    (∀ c ∈ cs, ∀ a, AncestorOrSelf tgt c.id a → (∃ c' ∈ cs, c'.id = a) ∨ NotChange src tgt a) ∧
+    (∀ c ∈ cs, stoppedDir c = true → ∀ ch ∈ childrenOf src c.id,
+      (∃ c' ∈ cs, c'.id = ch) ∨ NotChange src tgt ch) := by
+  cases filt with
+  | nil =>
+    simp [iterChangesG] at h
+    subst h; simp
+  | cons p f =>
+    obtain ⟨K, _, h2, h3, h4, h5, _⟩ := filteredG_closed fx impl src tgt p f reqv cs h
+    refine ⟨?_, h5⟩
+    intro c hc a ha
+    have : a ∈ K := by
+      induction ha with
+      | self => exact h2 c hc
+      | up _ hp ih => exact h4 _ ih _ hp
+    exact h3 a this
+
+/-- the closure reaches beyond the parent: `c` is reported, its parent `b` is unchanged, its
+grandparent `a` (renamed) is reported -/
+example : AncestorOrSelf tTgt "c" "a" ∧ NotChange tSrc tTgt "b" ∧ ¬ NotChange tSrc tTgt "a" := by
+  refine ⟨.up (a := "b") (.up (a := "c") .self (by decide +kernel)) (by decide +kernel), ?_, ?_⟩
+  · intro r hr
+    have : change tSrc tTgt "b" = some ⟨"b", some ["a", "b"], some ["z", "b"], false,
+        some ⟨some "a", "b", .dir, false⟩, some ⟨some "a", "b", .dir, false⟩⟩ := by decide +kernel
+    rw [this] at hr; cases hr; decide
+  · intro hn
+    have := hn ⟨"a", some ["a"], some ["z"], false, some ⟨some "r", "a", .dir, false⟩, some ⟨some "r", "z", .dir, false⟩⟩
+      (by decide +kernel)
+    exact absurd this (by decide)
+
+/- Full statement of the filter clause of the property (FALSE for the unchanged code and for the
+   loop with the termination fix, `displaced_entry_witness`):
+   theorem filter_wf (hs : wf src = true) (ht : wf tgt = true)
+       (h : iterChangesG fx impl src tgt (some filt) false reqv = .ok cs) :
+       ∃ t', applyChanges src tgt cs = some t' ∧ wf t' = true
+   What is missing: only the target paths of the *parents* the loop walks are checked for a
+   displaced source entry, and by path, not by (parent id, name). -/
+/-- **Applying a path-filtered result to the source yields a valid tree** (partial: under the
+explicit hypothesis that no id takes, in the target, a (parent id, name) slot held by another id
+in the source — the family of `displaced_entry_witness` — and that the root id is the same).  For
+all well-formed pairs of trees of any size, every filter, both flavours, both loop variants: the
+reported records can be applied, and the result has exactly one root, unique ids, every parent
+present and a directory, unique sibling names, and every entry reaches the root. -/
+theorem filter_wf_partial (fx : Bool) (impl : Impl) (src tgt : Tree) (filt : List Path) (reqv : Bool)
+    (cs : List Change) (hs : wf src = true) (ht : wf tgt = true) (hr : sameRoot src tgt = true)
+    (hn : noSlotOccupant src tgt = true)
+    (h : iterChangesG fx impl src tgt (some filt) false reqv = .ok cs) :
+    ∃ t', applyChanges src tgt cs = some t' ∧ wf t' = true := by
+  cases filt with
+  | nil =>
+    simp [iterChangesG] at h
+    subst h
+    exact ⟨src, rfl, hs⟩
+  | cons p f =>
+    obtain ⟨K, h1, h2, h3, h4, h5, _⟩ := filteredG_closed fx impl src tgt p f reqv cs h
+    exact wf_apply_of_closed src tgt cs K hs ht hr hn (fun c hc => (h1 c hc).2) h2 h3 h4 h5
+
+/-- the conclusion of `filter_wf_partial` on the example pair: the two reported records are applied
+and the result is well formed — and is not the target (`e` was not asked for) -/
+example : (match iterChanges .generic tSrc tTgt (some [["z", "b", "c"]]) false false with
+     | .ok cs => (applyChanges tSrc tTgt cs).map fun t => (wf t, get t "e" == get tTgt "e")
+     | .error _ => none) = some (true, false) := by decide +kernel
+
+/-- for the unchanged code (`fx = false`) the hypothesis of `filter_wf_partial` reads
+`iterChanges … = .ok cs` -/
+theorem filter_wf_partial_unfixed (impl : Impl) (src tgt : Tree) (filt : List Path) (reqv : Bool)
+    (cs : List Change) (hs : wf src = true) (ht : wf tgt = true) (hr : sameRoot src tgt = true)
+    (hn : noSlotOccupant src tgt = true)
+    (h : iterChanges impl src tgt (some filt) false reqv = .ok cs) :
+    ∃ t', applyChanges src tgt cs = some t' ∧ wf t' = true :=
+  filter_wf_partial false impl src tgt filt reqv cs hs ht hr hn (by rw [iterChangesG_false]; exact h)
+
+/-- **No id is reported twice**: without a filter (both settings of `include_unchanged`), and —
+with the `examined_file_ids` fix — with any filter, for all trees with unique ids.  (The unchanged
+loop reports displaced entries twice: `precise_duplicate_witness`.) -/
+theorem no_duplicates (src tgt : Tree) (hs : (ids src).Nodup) (ht : (ids tgt).Nodup) :
+    ((allRecords src tgt).map (·.id)).Nodup ∧ ((changesOf src tgt).map (·.id)).Nodup ∧
+    (∀ (impl : Impl) (filt : List Path) (reqv : Bool) (cs : List Change),
+      iterChangesG true impl src tgt (some filt) false reqv = .ok cs → (cs.map (·.id)).Nodup) := by
+  have hall : (allIds src tgt).Nodup := by
+    unfold allIds
+    rw [List.nodup_append]
+    refine ⟨ht, List.Pairwise.filter _ hs, ?_⟩
+    intro a ha b hb hab
+    subst hab
+    rw [List.mem_filter] at hb
+    simp at hb
+    exact hb.2 ha
+  have h1 : ((allRecords src tgt).map (·.id)).Nodup :=
+    (filterMap_ids_nodup (fun i c hc => change_id hc) _ hall).1
+  refine ⟨h1, ?_, ?_⟩
+  · unfold changesOf
+    exact List.Nodup.sublist (List.Sublist.map _ List.filter_sublist) h1
+  · intro impl filt reqv cs h
+    cases filt with
+    | nil =>
+      simp [iterChangesG] at h
+      subst h; simp
+    | cons p f =>
+      obtain ⟨extra, he, hcs⟩ := filteredG_shape true impl src tgt p f reqv cs h
+      rw [hcs]
+      apply preciseLoopG_true_nodup src tgt _ _ _ _ extra _ _ _ he
+      · simpa using base_ids_nodup hs ht (selectIds src tgt (p :: f)) false
+      · intro c hc
+        simp only [List.append_nil] at hc
+        exact List.mem_map.mpr ⟨c, hc, rfl⟩
+      · exact unionNew_nodup (by simp) _
+
+example : (ids exSrc).Nodup ∧ (ids exTgt).Nodup ∧
+    (iterChangesG true .generic exSrc exTgt (some [["d", "f"], ["q"]]) false false).toOption.map (fun cs => cs.map (·.id))
+      = some ["o", "f", "p"] := by decide +kernel
+
+/-- **Witness: the defects that the `examined_file_ids` fix does not touch are still there** in
+the loop with the fix: the displaced entry that is not reported (`displaced_entry_witness`) and
+`include_unchanged` widening the closure (`include_unchanged_widens_witness`);
+`chk_unchanged_path_witness` does not involve the loop at all. -/
+theorem fixed_loop_keeps_other_defects_witness :
+    (match iterChangesG true .generic dSrc dTgt (some [["x"]]) false false with
+     | .ok cs => (cs.map (·.id), (applyChanges dSrc dTgt cs).map wf)
+     | .error _ => ([], none)) = (["f"], some false) ∧
+    noSlotOccupant dSrc dTgt = false ∧
+    ((iterChangesG true .generic cSrc cTgt (some [["d", "b"]]) false false).toOption.map fun cs => cs.map (·.id)) = some [] ∧
+    ((iterChangesG true .generic cSrc cTgt (some [["d", "b"]]) true false).toOption.map
         fun cs => (cs.filter (·.isChanged)).map (·.id)) = some ["a"] := by decide +kernel
 
 end BreezyVerif.C10
